@@ -255,3 +255,34 @@ def scale_sem(ctx, corpus, cfg, n):
                               dict(kind="scale", property=prop, seed=ctx.seed, n=n, case=x))
         else:
             raise Infra("candidate did not reproduce: %s" % v)
+
+
+def repo_corpus(ctx, cfg, prop=None):
+    """the repository's own interpreter tests (scripts, balances, variables, metadata harvested at check time) as a corpus"""
+    import subprocess, sys
+    from .core import REPO, VERIF
+    prop = prop or ctx.prop
+    hp = os.path.join(ctx.work, "harvest.json")
+    p = subprocess.run([sys.executable, os.path.join(VERIF, "tools", "harvest.py"), REPO, hp], capture_output=True, text=True)
+    if p.returncode != 0:
+        ctx.notes.append("harvesting the repository's tests failed (corpus skipped): %s" % p.stderr[-300:])
+        return
+    tp = os.path.join(ctx.work, "repo_tests.ndjson")
+    summ = ctx.vh_json(["sem-file", hp, tp])
+    if summ["cases"] == 0:
+        ctx.notes.append("no repository test could be harvested")
+        return
+    r = ctx.tlc_trace("MachineTrace", cfg, tp, label="executions of the repository's own interpreter tests")
+    ctx.cov["evaluations"] += summ["cases"]
+    ctx.cov["traces_validated_against_impl"] += summ["cases"]
+    ctx.cov["repo_test_executions_validated"] = summ["cases"]
+    mine = [v for v in r["viols"] if v["prop"] == prop]
+    if mine:
+        cases = group_cases(tp)
+        v = mine[0]
+        lines = cases[v["id"]]
+        hits, rp = confirm_sem(ctx, cfg, lines, prop)
+        if hits:
+            ctx.add_violation("%s: %s | (a script of the repository's own tests) %s" % (prop, v["what"], lines[0]["text"].replace("\n", " ")[:300]), rp)
+        else:
+            raise Infra("candidate violation did not reproduce: %s" % v)
